@@ -369,7 +369,7 @@ Ltac plain_keys :=
   rewrite ?orb_false_r, ?orb_assoc; reflexivity.
 
 Lemma is_empty_eq : forall g, is_empty g = is_empty_any g.
-Proof. intros g. destruct g as [| | | | | |[|]| |[|]]; reflexivity. Qed.
+Proof. intros g. destruct g; reflexivity. Qed.
 
 Lemma nf_with_sim : forall v, nf_with v = ro (fun w => mj_with (Some w)) (unm_with v).
 Proof.
@@ -933,9 +933,7 @@ Qed.
 
 Lemma empty_finite : forall g, is_empty_any g = true -> gv_finite g = true.
 Proof.
-  intros g H. destruct g as [| | |j s| | |[|]| |[|]]; try reflexivity; try discriminate H.
-  cbn [is_empty_any] in H. cbn [gv_finite]. apply orb_true_iff in H.
-  destruct H as [H|H]; apply String.eqb_eq in H; subst j; reflexivity.
+  intros g H. destruct g; try reflexivity; discriminate H.
 Qed.
 
 Lemma jf_adj : forall a, match a with Some a => rem_lt adj_schema (ma_rem a) | None => True end ->
